@@ -56,7 +56,11 @@ func runCB(c CBCase) ev.Verdict {
 func genCBLoss(t *rapid.T) CBCase {
 	c := genCB(t)
 	c.TimeoutMS, c.NextMS = 2000, 0
-	c.Loss = rapid.SampledFrom([]string{"err", "eof"}).Draw(t, "loss")
+	c.Loss = rapid.SampledFrom([]string{"err", "eof", "write"}).Draw(t, "loss")
+
+	if c.Loss == "write" {
+		c.Steps = min(c.Steps, 2)
+	}
 
 	return c
 }
@@ -64,19 +68,31 @@ func genCBLoss(t *rapid.T) CBCase {
 func runCB1(c CBCase) ev.Verdict {
 	step := 0
 	dev := &sim.CLI{NL: "\r\n", Prompt: func() string { return "" }}
+	var pipe *sim.Pipe
+
+	lossAt := time.Time{}
+
 	dev.OnLine = func(string) (string, bool) {
 		step++
 		if step <= c.Steps {
 			return fmt.Sprintf("question %d?", step), true
 		}
 
+		if c.Loss == "write" && step == c.Steps+1 && step <= 3 {
+			// one more question, and the link loses its sending direction: the answer the
+			// callback writes fails (we are inside the pipe's Write, which holds its lock)
+			pipe.WriteFailAfter = 0
+			lossAt = time.Now()
+
+			return fmt.Sprintf("question %d?", step), true
+		}
+
 		return "thinking", true // ... and nothing more: the device goes quiet
 	}
 
-	pipe := sim.NewPipe(dev)
-	lossAt := time.Time{}
+	pipe = sim.NewPipe(dev)
 
-	if c.Loss != "" {
+	if c.Loss != "" && c.Loss != "write" {
 		// the loss follows the last output by a few milliseconds
 		go func() {
 			for i := 0; i < 400 && step <= c.Steps; i++ {
